@@ -508,12 +508,20 @@ class _X4Normaliser(ast.NodeTransformer):
             return ast.copy_location(ast.GeneratorExp(elt=g[0], generators=g[1]), node)
         return node
 
+    def visit_Try(self, node):
+        self.in_try = getattr(self, "in_try", 0) + 1
+        self.generic_visit(node)
+        self.in_try -= 1
+        return node
+
     def visit_Assign(self, node):
         self.generic_visit(node)
         # N7: `x = {E for a in A for b in B if c …}` -> `x = set()` and the nested loops adding `E` (loop variables renamed apart:
         # a comprehension has a scope of its own)
         if len(node.targets) == 1 and isinstance(node.targets[0], ast.Name) and isinstance(node.value, ast.SetComp) \
+                and getattr(self, "in_try", 0) == 0 \
                 and all(isinstance(g.target, ast.Name) and not g.is_async for g in node.value.generators):
+            # (not inside a `try`: if the comprehension raised, `x` would be left bound to a partial set)
             self.n = getattr(self, "n", 0) + 1
             x = node.targets[0].id
             ren = {g.target.id: f"__sc{self.n}_{g.target.id}" for g in node.value.generators}
